@@ -3,7 +3,7 @@ from pv import native
 
 
 def run_bounded(run, clauses, label, function, per_job=None, njobs=14):
-    per_job = per_job or (3 if run.tier == "quick" else 30)
+    per_job = per_job or (3 if run.tier == "quick" else 30 * run.tmul)
     jobs = [dict(seed=run.seed, start=k * per_job, count=per_job, clauses=list(clauses)) for k in range(njobs)]
     res, errs = native.pmap("contracts.scenarios", "run_scenarios", jobs)
     run.worker_errors(errs, len(jobs))
